@@ -383,27 +383,29 @@ def _stats(res, cfg):
             "exit": res.exit, "violated": res.violated, "tail": res.out[-2500:] if res.exit != 0 else ""}
 
 
-def validate_shard(workdir, recs, label):
-    """One TLC run over all histories (explored side by side).  TLC prints <<"AT", history, j>> for
+def validate_shard(workdir, recs, label, chunk=4000):
+    """One TLC run per chunk of histories (explored side by side).  TLC prints <<"AT", history, j>> for
     every state reached: events 1..j-1 of that history are a behaviour of the spec.
     -> ({index of a rejected history: number of accepted events}, [TLC stats])."""
     stats = []
-    if not recs:
-        return {}, stats
-    res = _tlc_trace(workdir, "Trace_Cache.cfg", recs, label)
-    stats.append(_stats(res, "Trace_Cache.cfg"))
-    if res.exit != 0:
-        return {}, stats
-    reach = {}
-    for hi, j in _AT_RE.findall(res.out):
-        hi, j = int(hi), int(j)
-        if j > reach.get(hi, 0):
-            reach[hi] = j
     rejected = {}
-    for i, rec in enumerate(recs):
-        acc = reach.get(i + 1, 1) - 1
-        if acc < len(rec["ev"]):
-            rejected[i] = acc
+    # chunks bound the memory of each TLC process (many shards run side by side)
+    for lo in range(0, len(recs), chunk):
+        part = recs[lo:lo + chunk]
+        res = _tlc_trace(workdir, "Trace_Cache.cfg", part, label)
+        stats.append(_stats(res, "Trace_Cache.cfg"))
+        if res.exit != 0:
+            return {}, stats
+        reach = {}
+        for hi, j in _AT_RE.findall(res.out):
+            hi, j = int(hi), int(j)
+            if j > reach.get(hi, 0):
+                reach[hi] = j
+        del res
+        for i, rec in enumerate(part):
+            acc = reach.get(i + 1, 1) - 1
+            if acc < len(rec["ev"]):
+                rejected[lo + i] = acc
     return rejected, stats
 
 
@@ -534,7 +536,7 @@ def check_histories(ctx, items, what):
         rec, acc = worst[key]
         ctx.violation("Cache:%s" % key, {
             "found_by": what,
-            "scenario": {"n": rec["n"], "nc": rec["nc"], "shape": rec["shape"], "style": rec["style"],
+            "scenario": {"lens": rec["lens"], "nc": rec["nc"], "shape": rec["shape"], "style": rec["style"],
                          "protocol": rec["protocol"]},
             "commands": rec["cmds"],
             "accepted_events": rec["ev"][:max(acc, 0)],
